@@ -567,27 +567,32 @@ def sup_coverage(run, C):
         run.cov["specs_outside_sup_b_samples"] = outside[:5]
 
 
-def term_coverage(run, C):
-    """how many corpus specifications satisfy the decidable hypothesis of C04_terminates_decidable"""
+def hyp_coverage(run, C, key, module, fn):
+    """how many corpus specifications satisfy a decidable theorem hypothesis (evaluated in Coq
+    on the dumped real ASTs)"""
     import coqterm as ct
     obs = [o for o in C["obs"] if o["ast"]["outcome"] == "ok" and o["gen_default"]["outcome"] == "ok"]
     shards = xv.shard(obs, 8)
 
     def runit(sh_i):
         si, sh = sh_i
-        body = ["From XdrProofs Require Import Termination.", "Open Scope string_scope.",
-                "Eval vm_compute in (map term_b [%s])." % ";\n".join(ct.ast(o["ast"]) for o in sh)]
-        out = xv.coq_eval("termb_%s_%d" % (run.pid, si), "\n".join(body))
+        body = ["From XdrProofs Require Import %s." % module, "Open Scope string_scope.",
+                "Eval vm_compute in (map (%s) [%s])." % (fn, ";\n".join(ct.ast(o["ast"]) for o in sh))]
+        out = xv.coq_eval("hyp_%s_%s_%d" % (key[:12], run.pid, si), "\n".join(body))
         return re.findall(r'\b(true|false)\b', out.split("=", 1)[1].split(": list")[0])
     try:
         vals = [v for r in xv.par(runit, list(enumerate(shards))) for v in r]
     except (TieBroken, IndexError) as e:
-        run.cov["term_b_evaluation_failed"] = str(e)[:300]
+        run.cov[key + "_evaluation_failed"] = str(e)[:300]
         return
-    run.cov["specs_satisfying_termination_hypothesis_term_b"] = "%d of %d" % (vals.count("true"), len(vals))
+    run.cov[key] = "%d of %d" % (vals.count("true"), len(vals))
     outside = [C["specs"][o["index"]][1][-120:] for o, v in zip(obs, vals) if v == "false"]
     if outside:
-        run.cov["specs_outside_term_b_samples"] = outside[:6]
+        run.cov[key + "_outside_samples"] = outside[:6]
+
+
+def term_coverage(run, C):
+    hyp_coverage(run, C, "specs_satisfying_termination_hypothesis_term_b", "Termination", "term_b")
 
 
 def check_c01(run):
@@ -597,6 +602,7 @@ def check_c01(run):
         return
     corpus_ties(run, C)
     sup_coverage(run, C)
+    hyp_coverage(run, C, "specs_satisfying_consumed_hypothesis_sup4_b_and_nof1_b", "Consumed", "fun a => andb (sup4_b a) (nof1_b a)")
     k3bad = set(C["k3"]["dis"])
     for n, c in enumerate(C["cases"]):
         if c["kind"] not in ("valid", "valid_ctx", "valid_big"):
@@ -904,6 +910,7 @@ def check_c09(run):
         ntypes[i] = ntypes.get(i, 0) + 1
     worst = (0, None)
     f1cx = {}
+    f15cx = {}
     lookup = {o["index"]: o for o in C["obs"]}
     k3bad = set(C["k3"]["dis"])
     for n, c in enumerate(C["cases"]):
@@ -927,6 +934,14 @@ def check_c09(run):
                                         "count field alone makes the decoder produce and store elements: struct z { opaque a<>; }; "
                                         "struct zs { z items<>; } on 00 00 08 00 + 8 zero bytes yields 2048 elements (65536 bytes)")
                     run.count("F1_array_overallocation")
+                    continue
+                if c["spec"] not in f15cx:
+                    f15cx[c["spec"]] = valgen.spec_has_self_nested_array(valgen.Ctx(lookup[c["spec"]]["ast"]))
+                if f15cx[c["spec"]] and n not in k3bad and any(f["id"] == "F15" for f in run.known["findings"]):
+                    run.known_hit("F15", "F15 a counted array nested in its own element type reserves min(count, remaining) elements at "
+                                         "every level: struct tnest { unsigned int v; tnest kids<>; } on 1000 x (00000007 00ffffff) = 8000 "
+                                         "input bytes requests 127 872 000 bytes (quadratic in the input)")
+                    run.count("F15_nested_reservations")
                     continue
                 run.violation("decode of %d input bytes requested %d bytes from the allocator (bound %d)" % (len(c["input"]), a, bound),
                               case_replay(C, c, {"requested": a, "bound": bound}))
